@@ -7,6 +7,7 @@ mod c08_zcc;
 mod c11_reqres;
 mod c12_blackboard;
 mod c14_reloc;
+mod c14_shmsets;
 mod c18_ffi;
 mod c20_waitset;
 mod c15_alloc;
@@ -69,6 +70,7 @@ fn main() {
         "eventseq" => go!(c05_eventseq::generate, || c05_eventseq::EventSeqComp::new()),
         "blackboard" => go!(c12_blackboard::generate, || c12_blackboard::BlackboardComp::new()),
         "eventports" => go!(c05_eventports::generate, || c05_eventports::EventPortsComp::new()),
+        "shmsets" => go!(c14_shmsets::generate, || c14_shmsets::ShmSetsComp::new()),
         "alloc" => go!(c15_alloc::generate, || c15_alloc::AllocComp::new()),
         "names" => go!(c19_names::generate, || c19_names::NamesComp::new()),
         "vec" => go!(c16_vec::generate, || c16_vec::VecComp::new()),
